@@ -69,6 +69,18 @@ type pFold struct {
 	Y  string `json:"y"`
 }
 
+// pArg: one argument of main (kind: uint | int | bytes)
+type pArg struct {
+	Bits int    `json:"bits"`
+	Kind string `json:"kind"`
+}
+
+// pRet: one return value of a MODELLED program: `arg` or `arg ^ (A op B)`
+type pRet struct {
+	Arg  int    `json:"arg"`
+	Fold *pFold `json:"fold,omitempty"`
+}
+
 type pProg struct {
 	ID      int     `json:"id"` // global program id (same id = same source, parameters, sizes)
 	Name    string  `json:"name"`
@@ -79,11 +91,17 @@ type pProg struct {
 	Sizes   [][]int `json:"sizes"`
 	Variant int     `json:"variant"`
 	Folds   []pFold `json:"folds,omitempty"`
+	Args    []pArg  `json:"args,omitempty"` // the arguments of main (inputs of the step kinds that run the program)
+	Rets    []pRet  `json:"rets,omitempty"` // modelled programs: the return values (Model/ProcSteps.lean `Prog`)
 }
 
 type pStep struct {
 	Prog  int  `json:"prog"`  // index into pSpec.Progs
 	Fresh bool `json:"fresh"` // true: new Compiler + new Params; false: the process's long-lived Compiler of the program's parameter variant
+	// Kind: "" = Compiler.Compile; otherwise one of the step kinds of pacts.go
+	// (streaming session, CompileFile, CompileSSA, Compute, Garble/Eval, Marshal/Parse round trip)
+	Kind string   `json:"kind,omitempty"`
+	In   []string `json:"in,omitempty"` // the parties' inputs of the kinds that run the program
 }
 
 type pSpec struct {
@@ -103,14 +121,29 @@ type pStepRes struct {
 	SSAHash  string   `json:"ssa"`
 	Consts   []string `json:"consts"`
 	Ms       int64    `json:"ms"`
+	Kind     string   `json:"kind,omitempty"`
+	Wires    int      `json:"wires"`
+	Status   string   `json:"status,omitempty"` // kinds that run something: ok | what went wrong
+	Vals     string   `json:"vals,omitempty"`   // kinds that run the program: the results
+	GC       []int    `json:"gc,omitempty"`     // ssa-stream: arguments recycled by gc, in order
 }
 
+// same: equal outputs of two steps of the same (program, kind, inputs)
 func (r *pStepRes) same(o *pStepRes) bool {
+	return r.sameCircuit(o) && r.Status == o.Status && r.Vals == o.Vals
+}
+
+// sameCircuit: what the property observes of the compilation inside the step
+func (r *pStepRes) sameCircuit(o *pStepRes) bool {
 	return r.Err == o.Err && r.CircHash == o.CircHash && r.CircLen == o.CircLen && r.SSAHash == o.SSAHash
 }
 
 func (r *pStepRes) String() string {
-	return fmt.Sprintf("gates=%d circ=%s/%d ssa=%s consts=%v err=%q", r.Gates, r.CircHash, r.CircLen, r.SSAHash, r.Consts, r.Err)
+	s := fmt.Sprintf("gates=%d wires=%d circ=%s/%d ssa=%s consts=%v err=%q", r.Gates, r.Wires, r.CircHash, r.CircLen, r.SSAHash, r.Consts, r.Err)
+	if r.Status != "" || r.Vals != "" {
+		s += fmt.Sprintf(" status=%q results=%s", r.Status, clipS(r.Vals, 300))
+	}
+	return s
 }
 
 // families and the packages of the compile path whose package-level state
@@ -153,9 +186,28 @@ func runPChild(args []string) {
 	}
 	long := map[int]*shared{}
 	var out []*pStepRes
+	// a stuck session must not hold the run
+	time.AfterFunc(12*time.Minute, func() { os.Exit(3) })
 	for i, st := range spec.Steps {
 		pp := spec.Progs[st.Prog]
 		j := &Job{Name: pp.Name, Family: pp.Family, Src: pp.Src, Sizes: pp.Sizes, Variant: pp.Variant}
+		if k := stepKind(st); k != kCompile {
+			sr, ssaText := runActivity(k, pp, st.In, args[2], i)
+			sr.Prog = st.Prog
+			if ssaText != "" {
+				if len(ssaText) < 1<<18 {
+					os.WriteFile(filepath.Join(args[2], fmt.Sprintf("%d.ssa", i)), []byte(ssaText), 0o644)
+				}
+				if len(pp.Folds) > 0 || len(ssaText) < 4096 {
+					sr.Consts = listingConsts(ssaText)
+					if len(sr.Consts) > 24 {
+						sr.Consts = sr.Consts[:24]
+					}
+				}
+			}
+			out = append(out, sr)
+			continue
+		}
 		var r *Res
 		if st.Fresh {
 			r = compileFresh(j)
@@ -171,7 +223,7 @@ func runPChild(args []string) {
 		if len(r.ssa) < 1<<18 {
 			os.WriteFile(filepath.Join(args[2], fmt.Sprintf("%d.ssa", i)), []byte(r.ssa), 0o644)
 		}
-		sr := &pStepRes{Prog: st.Prog, Err: r.Err, Gates: r.Gates, CircHash: r.CircHash, CircLen: r.CircLen,
+		sr := &pStepRes{Prog: st.Prog, Err: r.Err, Gates: r.Gates, Wires: r.Wires, CircHash: r.CircHash, CircLen: r.CircLen,
 			SSAHash: r.SSAHash, Ms: r.Ms}
 		if len(pp.Folds) > 0 || len(r.ssa) < 4096 {
 			sr.Consts = listingConsts(r.ssa)
@@ -280,7 +332,14 @@ func (g *pGen) groupWideConst(fam string, ops []string, variant int) {
 			rets = 2
 		}
 		attr := fmt.Sprintf("%s: uint%d, |A|=%d bits, |B|=%d bits, folds %s", what, w, xl, yl, strings.Join(ops, " "))
-		g.add(fam, attr, g.wideConstSrc(w, x, y, exprs, rets), nil, variant, folds)
+		p := g.add(fam, attr, g.wideConstSrc(w, x, y, exprs, rets), nil, variant, folds)
+		p.Args = []pArg{{w, "uint"}, {w, "uint"}}
+		for i := range folds {
+			p.Rets = append(p.Rets, pRet{Arg: i % 2, Fold: &folds[i]})
+		}
+		if len(folds) < 2 {
+			p.Rets = append(p.Rets, pRet{Arg: 1})
+		}
 	}
 	sub := func() []string {
 		// which of the operators a sibling folds
@@ -340,7 +399,8 @@ func main(a, b uint%d) (uint%d, uint%d, bool, bool) {
 	return x, y, A < B, A == B
 }
 `, w, hexLit(x), w, hexLit(y), w, w, w, s1, s2)
-		g.add("wide-const-bits", fmt.Sprintf("%s: uint%d, |A|=%d bits, |B|=%d bits, << %d, >> %d", what, w, xl, yl, s1, s2), src, nil, variant, nil)
+		p := g.add("wide-const-bits", fmt.Sprintf("%s: uint%d, |A|=%d bits, |B|=%d bits, << %d, >> %d", what, w, xl, yl, s1, s2), src, nil, variant, nil)
+		p.Args = []pArg{{w, "uint"}, {w, "uint"}}
 	}
 	s1, s2 := 1+r.Intn(w-1), 1+r.Intn(w-1)
 	mk("victim", w, xlen, big1, s1, s2)
@@ -376,7 +436,8 @@ func (g *pGen) groupRuntimeOps(variant int) {
 		}
 		src := fmt.Sprintf("package main\n\nfunc main(a, b %s) (%s, %s, %s, bool) {\n\treturn %s, a %s b\n}\n", t, t, t, t,
 			strings.Join(exprs, ", "), cmp)
-		g.add("runtime-ops", fmt.Sprintf("%s: %s, %s, a %s b", what, t, strings.Join(exprs, "; "), cmp), src, nil, variant, nil)
+		p := g.add("runtime-ops", fmt.Sprintf("%s: %s, %s, a %s b", what, t, strings.Join(exprs, "; "), cmp), src, nil, variant, nil)
+		p.Args = []pArg{{w, t[:len(t)-len(fmt.Sprint(w))]}, {w, t[:len(t)-len(fmt.Sprint(w))]}}
 	}
 	os0 := opsets[r.Intn(len(opsets))]
 	mk("victim", w, signed, os0, "<")
@@ -427,7 +488,8 @@ func main(a, b int32) (int32, int32) {
 	return sum + a, s2 + b + int32(len(val))
 }
 `, s, len(arr), k, strings.Join(arr, ", "))
-		g.add("const-aggregates", fmt.Sprintf("%s: string of %d bytes, [%d]int%d", what, len(s), len(arr), k), src, nil, variant, nil)
+		p := g.add("const-aggregates", fmt.Sprintf("%s: string of %d bytes, [%d]int%d", what, len(s), len(arr), k), src, nil, variant, nil)
+		p.Args = []pArg{{32, "int"}, {32, "int"}}
 	}
 	n := 3 + r.Intn(12)
 	k := pick(r, []int{8, 16, 32})
@@ -468,7 +530,8 @@ func main(a, b uint%d) (%s) {
 	return %s
 }
 `, k, strings.Join(types, ", "), strings.Join(exprs, ", "))
-		g.add("library", fmt.Sprintf("%s: uint%d, math.%s, rotation %d", what, k, nat, order), src, nil, variant, nil)
+		p := g.add("library", fmt.Sprintf("%s: uint%d, math.%s, rotation %d", what, k, nat, order), src, nil, variant, nil)
+		p.Args = []pArg{{k, "uint"}, {k, "uint"}}
 	}
 	k := pick(r, []int{8, 16, 24, 32, 64})
 	nat := natives[r.Intn(len(natives))]
@@ -512,8 +575,9 @@ func main(a, b []byte) (int32, int32) {
 `, c)
 	n, m := 2+r.Intn(5), 2+r.Intn(5)
 	mk := func(what string, n, m, variant int) {
-		g.add("sizes-params", fmt.Sprintf("%s: sizes %d,%d bytes, parameter variant %d", what, n, m, variant), src,
+		p := g.add("sizes-params", fmt.Sprintf("%s: sizes %d,%d bytes, parameter variant %d", what, n, m, variant), src,
 			[][]int{{8 * n}, {8 * m}}, variant, nil)
+		p.Args = []pArg{{8 * n, "bytes"}, {8 * m, "bytes"}}
 	}
 	mk("victim", n, m, 0)
 	mk("other size of a", n+1, m, 0)
@@ -711,25 +775,21 @@ func readSSA(dir string, step int) string {
 // prefixSpec: the history up to and including step `last`, optionally
 // without the steps in `drop`.
 func prefixSpec(sp *pSpec, last int, drop map[int]bool) *pSpec {
-	var seq []int
-	var fr []bool
+	ns := &pSpec{Name: sp.Name + " (history)", Kind: sp.Kind, Env: sp.Env}
+	local := map[int]int{}
 	for i := 0; i <= last; i++ {
 		if drop[i] {
 			continue
 		}
-		seq = append(seq, sp.Steps[i].Prog)
-		fr = append(fr, sp.Steps[i].Fresh)
-	}
-	ns := &pSpec{Name: sp.Name + " (history)", Kind: sp.Kind, Env: sp.Env}
-	local := map[int]int{}
-	for i, li := range seq {
-		ni, ok := local[li]
+		st := sp.Steps[i]
+		ni, ok := local[st.Prog]
 		if !ok {
 			ni = len(ns.Progs)
-			local[li] = ni
-			ns.Progs = append(ns.Progs, sp.Progs[li])
+			local[st.Prog] = ni
+			ns.Progs = append(ns.Progs, sp.Progs[st.Prog])
 		}
-		ns.Steps = append(ns.Steps, pStep{Prog: ni, Fresh: fr[i]})
+		st.Prog = ni
+		ns.Steps = append(ns.Steps, st)
 	}
 	return ns
 }
@@ -738,9 +798,18 @@ func pristineSpec(p *pProg) *pSpec {
 	return &pSpec{Name: "the program alone in a fresh process", Kind: "pristine", Progs: []*pProg{p}, Steps: []pStep{{Prog: 0, Fresh: true}}}
 }
 
+// pristineStepSpec: the step (of any kind) alone in a fresh process
+func pristineStepSpec(p *pProg, st pStep) *pSpec {
+	st.Prog = 0
+	if stepKind(st) == kCompile {
+		st.Fresh = true
+	}
+	return &pSpec{Name: "the step alone in a fresh process", Kind: "pristine", Progs: []*pProg{p}, Steps: []pStep{st}}
+}
+
 // minimise: ddmin over the steps before the last one; keeps a removal when
 // the last step's output still differs from `want`.  At most `budget` trials.
-func (pr *pRunner) minimise(sp *pSpec, want *pStepRes, budget int) (*pSpec, int) {
+func (pr *pRunner) minimise(sp *pSpec, want *pStepRes, cmp func(a, b *pStepRes) bool, budget int) (*pSpec, int) {
 	cur := sp
 	trials := 0
 	chunk := (len(cur.Steps) - 1) / 2
@@ -758,7 +827,7 @@ func (pr *pRunner) minimise(sp *pSpec, want *pStepRes, budget int) (*pSpec, int)
 			cand.Name = sp.Name
 			rs, _ := pr.run(cand)
 			trials++
-			if rs != nil && !rs[len(rs)-1].same(want) {
+			if rs != nil && !cmp(rs[len(rs)-1], want) {
 				cur = cand
 				removed = true
 			} else {
@@ -782,6 +851,10 @@ func describeHistory(sp *pSpec) []string {
 		if st.Fresh {
 			how = "a fresh Compiler"
 		}
+		if k := stepKind(st); k != kCompile {
+			l = append(l, fmt.Sprintf("%d. %s (fresh Compiler) inputs %v: %s [%s]", i+1, k, st.In, p.Name, p.Attr))
+			continue
+		}
 		l = append(l, fmt.Sprintf("%d. Compile on %s: %s [%s]", i+1, how, p.Name, p.Attr))
 	}
 	return l
@@ -796,17 +869,18 @@ func historySources(sp *pSpec) []map[string]any {
 	return l
 }
 
-// reportPFailure: (sa, ia) and (sb, ib) are two compilations of the same
-// program with different outputs.
-func (pr *pRunner) reportPFailure(o *hxlib.Out, seed uint64, tier string, sa *pSpec, ia int, ra *pStepRes, sb *pSpec, ib int, rb *pStepRes, minimiseIt bool) {
+// reportPFailure: (sa, ia) and (sb, ib) are two steps with the same program
+// whose outputs must be equal under `cmp` (sameCircuit: the compilations inside
+// the steps; same: steps of one kind with the same inputs) and are not.
+func (pr *pRunner) reportPFailure(o *hxlib.Out, seed uint64, tier string, sa *pSpec, ia int, ra *pStepRes, sb *pSpec, ib int, rb *pStepRes,
+	cmp func(a, b *pStepRes) bool, minimiseIt bool) {
 	prog := sa.Progs[sa.Steps[ia].Prog]
-	pris := pristineSpec(prog)
-	prs, pdir := pr.run(pris)
 	d := map[string]any{
 		"program": prog.Name, "family": prog.Family, "attributes": prog.Attr, "variant": prog.Variant, "sizes": fmt.Sprint(prog.Sizes),
 		"source":   clipS(prog.Src, 3000),
-		"found_in": fmt.Sprintf("process %q step %d  vs  process %q step %d", sa.Name, ia+1, sb.Name, ib+1),
-		"a":        ra.String(), "b": rb.String(),
+		"found_in": fmt.Sprintf("process %q step %d (%s)  vs  process %q step %d (%s)", sa.Name, ia+1, stepKind(sa.Steps[ia]), sb.Name, ib+1,
+			stepKind(sb.Steps[ib])),
+		"a": ra.String(), "b": rb.String(),
 	}
 	what := "ssa"
 	if ra.CircHash != rb.CircHash || ra.CircLen != rb.CircLen {
@@ -818,49 +892,60 @@ func (pr *pRunner) reportPFailure(o *hxlib.Out, seed uint64, tier string, sa *pS
 	if ra.Err != rb.Err {
 		what = "error"
 	}
+	if ra.sameCircuit(rb) {
+		what = "results of running the program"
+	}
 	d["what"] = what
-	var bad *pSpec
-	if prs != nil {
-		p0 := prs[0]
-		d["alone_in_a_fresh_process"] = p0.String()
-		switch {
-		case !ra.same(p0):
-			bad = prefixSpec(sa, ia, nil)
-		case !rb.same(p0):
-			bad = prefixSpec(sb, ib, nil)
-		}
-		if bad != nil {
-			trials := 0
-			if minimiseIt {
-				bad, trials = pr.minimise(bad, p0, 40)
-			}
-			brs, bdir := pr.run(bad)
-			if brs != nil && !brs[len(brs)-1].same(p0) {
-				last := brs[len(brs)-1]
-				d["after_the_history"] = last.String()
-				d["history"] = describeHistory(bad)
-				d["history_programs"] = historySources(bad)
-				d["minimisation_trials"] = trials
-				d["replay_spec"] = map[string]any{"history": bad, "reference": pris}
-				ta, tb := readSSA(pdir, 0), readSSA(bdir, len(brs)-1)
-				if ta != tb {
-					d["ssa_diff"] = firstDiff(ta, tb)
-					d["ssa_listing_alone"] = clipS(ta, 12000)
-					d["ssa_listing_after_history"] = clipS(tb, 12000)
-				}
-			} else {
-				bad = nil
+	// the reference: the differing step alone in a fresh process
+	var bad, pris *pSpec
+	var p0 *pStepRes
+	var pdir string
+	prisA := pristineStepSpec(prog, sa.Steps[ia])
+	if prs, dir := pr.run(prisA); prs != nil {
+		d["alone_in_a_fresh_process"] = prs[0].String()
+		if !cmp(ra, prs[0]) {
+			bad, pris, p0, pdir = prefixSpec(sa, ia, nil), prisA, prs[0], dir
+		} else {
+			prisB := pristineStepSpec(prog, sb.Steps[ib])
+			if prs2, dir2 := pr.run(prisB); prs2 != nil && !cmp(rb, prs2[0]) {
+				bad, pris, p0, pdir = prefixSpec(sb, ib, nil), prisB, prs2[0], dir2
 			}
 		}
 	}
+	if bad != nil {
+		trials := 0
+		if minimiseIt {
+			bad, trials = pr.minimise(bad, p0, cmp, 40)
+		}
+		brs, bdir := pr.run(bad)
+		if brs != nil && !cmp(brs[len(brs)-1], p0) {
+			last := brs[len(brs)-1]
+			d["after_the_history"] = last.String()
+			d["alone_in_a_fresh_process"] = p0.String()
+			d["history"] = describeHistory(bad)
+			d["reference"] = describeHistory(pris)
+			d["history_programs"] = historySources(bad)
+			d["history_env"] = bad.Env
+			d["minimisation_trials"] = trials
+			d["replay_spec"] = map[string]any{"history": bad, "reference": pris}
+			ta, tb := readSSA(pdir, 0), readSSA(bdir, len(brs)-1)
+			if ta != tb {
+				d["ssa_diff"] = firstDiff(ta, tb)
+				d["ssa_listing_alone"] = clipS(ta, 12000)
+				d["ssa_listing_after_history"] = clipS(tb, 12000)
+			}
+		} else {
+			bad = nil
+		}
+	}
 	if bad == nil {
-		// neither side differs reproducibly from the program compiled alone:
-		// the two processes themselves are the replay
+		// neither side differs reproducibly from the step alone in a fresh
+		// process: the two processes themselves are the replay
 		ha, hb := prefixSpec(sa, ia, nil), prefixSpec(sb, ib, nil)
 		d["history"] = describeHistory(ha)
 		d["other_history"] = describeHistory(hb)
 		d["replay_spec"] = map[string]any{"history": ha, "reference": hb}
-		d["note"] = "the difference did not reproduce against the program compiled alone in a fresh process; both processes are kept"
+		d["note"] = "the difference did not reproduce against the step alone in a fresh process; both processes are kept"
 	}
 	d["rerun"] = fmt.Sprintf("bin/check C08 --replay <this file>   (c08 pstate -seed %d -tier %s -extra replay=<this file>)", seed, tier)
 	o.Fail("c08-process-state-history", d)
